@@ -10,6 +10,7 @@ removal and simplification) never change which strings match.
 -/
 import ZoektModel.C27.Lemmas
 import ZoektModel.C27.Printer
+import ZoektModel.C27.Escape
 import ZoektModel.C27.EndsSound
 import ZoektModel.C27.EndsComplete
 import ZoektModel.C27.Spec
@@ -162,6 +163,15 @@ theorem printer_parenthesises_concat (env : Env) (subs : List Re) (hw : WFPL sub
     ∃ xs, DConcat (printTokConcat subs) xs ∧ Equiv env (.concat xs) (.concat subs) :=
   print_levels_concat env subs hw
 
+/-- **lexical layer, one rune: `escape` round-trips**.  What `escape` writes for a rune (raw, backslash + punctuation,
+    `\a \f \n \r \t \v`, zero-padded `\xHH`, `\x{H…}`) is read back as that same rune, with nothing left over or
+    consumed from what follows, by a reader following `regexp/syntax`'s rules for literal characters and escapes —
+    for every rune up to U+10FFFF, inside and outside character classes (`force` is only ever used for `-`). -/
+theorem escape_reads_back (isPrint : Nat → Bool) (r : Nat) (force : Bool) (rest : List Char)
+    (hr : r ≤ 0x10FFFF) (hv : isPrint r = true → (Char.ofNat r).toNat = r) (hf : force = true → r = 45) :
+    readRune (escape isPrint r force ++ rest) = some (r, rest) :=
+  readRune_escape isPrint r force rest hr hv hf
+
 /-- the token printer is the character printer -/
 theorem print_tokens_render (isPrint : Nat → Bool) (r : Re) : render isPrint (printTok r) = printRe isPrint r :=
   render_printTok isPrint r
@@ -206,6 +216,10 @@ theorem validFindAll_spans_match (env : Env) (s : Array Nat) (r : Re) :
 
 /-! ### non-vacuity -/
 
+/-- U+00AD (soft hyphen, not printable) is written `\xad`, U+2028 as `\x{2028}`, and `.` as `\.` -/
+example : escape (fun c => c == 46) 0xAD false = ['\\', 'x', 'a', 'd'] ∧
+    escape (fun c => c == 46) 0x2028 false = ['\\', 'x', '{', '2', '0', '2', '8', '}'] ∧
+    escape (fun c => c == 46) 46 false = ['\\', '.'] := by decide
 /-- `(a|b)*c`: the printer groups the alternation under the star, and the derivation exists -/
 example : printTok (.concat [.star false (.alt [.lit [97] false, .lit [98] false]), .lit [99] false]) =
     [.openNC, .atom (.litRune 97), .bar, .atom (.litRune 98), .close, .post (.star false), .atom (.litRune 99)] := by rfl
